@@ -34,6 +34,18 @@ Theorem C08_publish_kinded :
   forall m k inc est bm sn ch, kinded m -> kinded (fst (publish_writes m k inc est bm sn ch)).
 Proof. exact publish_kinded. Qed.
 
+(* Ordered commit may already have moved the first c <= t transactions into the backing store (with
+   the storage of destroyed / created / empty-touched accounts cleared, parallel_state.rs:296-359):
+   the read returns the same in-order value through any such store. *)
+Theorem C08_storage_through_committed_prefix :
+  forall (bm : N -> bool) (b : base) (effs : list txeff),
+  addrs_nodup effs ->
+  forall c t a s, c <= t ->
+  ac_val (rd_storage (publish_all bm effs) (backing_of (committed_base b effs c)) t a s) =
+  Ok (s_stor (apply_all (sstate_of b) (firstn t effs)) a s).
+Proof. exact storage_committed_prefix. Qed.
+
 Print Assumptions C08_flat_refines_struct.
+Print Assumptions C08_storage_through_committed_prefix.
 Print Assumptions C08_readset_determines_storage.
 Print Assumptions C08_publish_kinded.
